@@ -14,12 +14,13 @@ EXTENDS Naturals, Sequences, TLC, FiniteSets
 \* lint still looks at their label and output variable ("OUT", "LBL" carry an upper-case letter)
 NoCmdKinds == {"none", "out", "OUT", "lbl", "LBL"}
 \* exit256: a non-zero exit value whose low eight bits are zero - still a failed run
-Kinds == {"echo", "crash", "exit3", "exit256", "exit0", "badquote", "unknowncmd", "ECHO"} \cup NoCmdKinds
+\* xecho: `exec echo child` - a child process writing to the inherited standard output, between the script's own lines
+Kinds == {"echo", "xecho", "crash", "exit3", "exit256", "exit0", "badquote", "unknowncmd", "ECHO"} \cup NoCmdKinds
 FirstKinds == Kinds \ {"out", "OUT", "lbl", "LBL"}    \* the first statement takes its label / output from s.label / s.out
 Terminates(k) == k \in {"crash", "exit3", "exit256", "exit0", "unknowncmd", "ECHO"}
 RECURSIVE RunFrom(_,_)
 RunFrom(st, i) == IF i > Len(st) THEN "ok"
-                  ELSE CASE st[i] \in {"echo"} \cup NoCmdKinds -> RunFrom(st, i+1) [] st[i] \in {"crash", "unknowncmd", "ECHO"} -> "crash"
+                  ELSE CASE st[i] \in {"echo", "xecho"} \cup NoCmdKinds -> RunFrom(st, i+1) [] st[i] \in {"crash", "unknowncmd", "ECHO"} -> "crash"
                          [] st[i] \in {"exit3", "exit256"} -> "exit-nonzero" [] st[i] = "exit0" -> "exit-zero"
 Outcome(s) == IF s.missing THEN "missing-file"
               ELSE IF \E i \in 1..Len(s.st) : s.st[i] = "badquote" THEN "parse-error" ELSE RunFrom(s.st, 1)
@@ -27,6 +28,12 @@ Outcome(s) == IF s.missing THEN "missing-file"
 RECURSIVE Echoes(_,_)
 Echoes(st, i) == IF i > Len(st) \/ Terminates(st[i]) THEN 0 ELSE (IF st[i] = "echo" THEN 1 ELSE 0) + Echoes(st, i+1)
 Printed(s) == IF Outcome(s) \in {"parse-error", "missing-file"} THEN 0 ELSE Echoes(s.st, 1)
+\* the lines on standard output, in program order: the script's own ("hello") and the child processes' ("child")
+\* (an exec whose line has an output variable - only the first statement can - captures the child's output instead)
+RECURSIVE OutLines(_,_)
+OutLines(s, i) == IF i > Len(s.st) \/ Terminates(s.st[i]) THEN <<>>
+                  ELSE (IF s.st[i] = "echo" THEN <<"hello">> ELSE IF s.st[i] = "xecho" /\ ~(i = 1 /\ s.out # "none") THEN <<"child">> ELSE <<>>) \o OutLines(s, i+1)
+PrintedLines(s) == IF Outcome(s) \in {"parse-error", "missing-file"} THEN <<>> ELSE OutLines(s, 1)
 AllLower(s) == s.label # "Upper" /\ s.out # "Upper" /\ \A i \in 1..Len(s.st) : s.st[i] \notin {"ECHO", "OUT", "LBL"}
 RunForms == {"file", "-e", "--eval"}
 LintForms == {"-l", "--lint"}
@@ -34,8 +41,8 @@ InfoForms == {"--version", "--help", "-h"}
 \* [status0: exit status is 0, errline: an "Error:" line is printed, ran: the marker statement was executed, echoes]
 Status(form, s) ==
   CASE form \in RunForms -> LET o == Outcome(s) IN [status0 |-> o \in {"ok", "exit-zero"}, errline |-> o \notin {"ok", "exit-zero"},
-                                                   ran |-> o \notin {"parse-error", "missing-file"}, echoes |-> Printed(s)]
+                                                   ran |-> o \notin {"parse-error", "missing-file"}, echoes |-> Printed(s), lines |-> PrintedLines(s)]
     [] form \in LintForms -> LET good == Outcome(s) \notin {"parse-error", "missing-file"} /\ AllLower(s) IN
-                             [status0 |-> good, errline |-> ~good, ran |-> FALSE, echoes |-> 0]
-    [] form \in InfoForms -> [status0 |-> TRUE, errline |-> FALSE, ran |-> FALSE, echoes |-> 0]
+                             [status0 |-> good, errline |-> ~good, ran |-> FALSE, echoes |-> 0, lines |-> <<>>]
+    [] form \in InfoForms -> [status0 |-> TRUE, errline |-> FALSE, ran |-> FALSE, echoes |-> 0, lines |-> <<>>]
 =============================================================================
